@@ -53,7 +53,27 @@ DoFile ==
     /\ saved' = NoDoc /\ dbytes' = Recs[l].bytes
     /\ l' = l + 1
 
-Next == l <= Len(Recs) /\ (DoReset \/ DoSave \/ DoLoad \/ DoFile)
+\* IncrementalDocument::save_to: the previous file is `dbytes` (strict reading `disk`)
+DoSaveInc ==
+    /\ Recs[l].ev = "SaveInc"
+    /\ LET rec == Recs[l]
+           newdoc == DocOf(rec.newdoc)
+           ver == IF ~disk.ok THEN [v |-> "ok-skipped"]
+                  ELSE JudgeSaveInc(newdoc, rec.res, disk, dbytes, rec.bytes, rec.prev_before, rec.prev_after)
+       IN /\ Out(l, rec, ver, [v |-> "ok-na"])
+          /\ disk' = IF rec.res = "ok" THEN RdFile(rec.bytes) ELSE NoDisk
+          /\ dbytes' = rec.bytes
+          /\ saved' = NoDoc
+    /\ l' = l + 1
+
+\* IncrementalDocument::load_from failed on a file that the strict reader accepts
+DoLoadInc ==
+    /\ Recs[l].ev = "LoadInc"
+    /\ Out(l, Recs[l], IF disk.ok THEN [v |-> "loadinc-failed", res |-> Recs[l].res] ELSE [v |-> "ok-skipped"], [v |-> "ok-na"])
+    /\ UNCHANGED <<disk, saved, dbytes>>
+    /\ l' = l + 1
+
+Next == l <= Len(Recs) /\ (DoReset \/ DoSave \/ DoLoad \/ DoFile \/ DoSaveInc \/ DoLoadInc)
 Spec == Init /\ [][Next]_<<l, disk, saved, dbytes>>
 Consumed == TLCGet("stats").diameter = Len(Recs) + 1
 =============================================================================
